@@ -581,4 +581,9 @@ func (h *H) phaseUTF8() {
 		return
 	}
 	res.Hit("utf8:roundtrips")
+	// … and through EVERY accessor, the partial decoders included (execution status, events, hashes)
+	c := &Checker{res: res, backend: "memory", replay: func(accessor, detail string) any {
+		return h.spec("utf8", 0, map[string]any{"revert_reason_hex": hx([]byte(rc.RevertReason)), "accessor": accessor, "detail": detail})
+	}}
+	ReadBack(c, d, blockchain.New(d, lib.TestNetwork()), rec, true)
 }
